@@ -502,7 +502,8 @@ pub fn gen_stream_ops(rec: &mut Rec, rng: &mut Rng, exec: &mut dyn FnMut(&mut Re
     if reading {
         let kind = *rng.pick(&["slice", "cursor", "scripted", "scripted", "fd"]);
         let data = rng.bytes(dlen);
-        let pos = if kind == "cursor" { if rng.chance(1, 5) { dlen as u64 + rng.below(4) } else { rng.below(dlen as u64 + 1) } } else { 0 };
+        // (a cursor may stand anywhere, far beyond its data included: position + count must not be computed carelessly)
+        let pos = if kind == "cursor" { match rng.below(10) { 0 | 1 => dlen as u64 + rng.below(4), 2 => *rng.pick(&[u64::MAX, u64::MAX - 1, u64::MAX - 7, u64::MAX - 8, 1 << 63, (1 << 32) + 1]), _ => rng.below(dlen as u64 + 1) } } else { 0 };
         let script = if kind == "scripted" || kind == "fd" { gen_script(rng, kind == "fd") } else { String::new() };
         exec(rec, format!("rd.new id=0 kind={} data={} pos={} script={}", kind, hex(&data), pos, script));
         format!("{}.{} {} rd=0 count={}", prefix, if exact { "revf" } else { "rvf" }, target, count)
